@@ -1,0 +1,21 @@
+//go:build verif
+
+// Contracts for the slipvc verifier (see /verif/DESIGN.md). Comment-only file.
+
+package bag
+
+// C18: bag-remove stores what the path removal returns (removing an element
+// of a root array yields a new array).
+//@ func bag.removeBag
+//@   property C18
+//@   count-stores Any
+//@   ensures result-stored: $nstore_Any == 1
+
+// C18: native Lisp data -> bag: an association list (first element a pair
+// whose cdr is a tail cell) becomes a JSON object, any other list an array with
+// one element per element, nil stays null.
+//@ func bag.ObjectToBag
+//@   property C18
+//@   ensures assoc-is-object: old(is(obj, slip.List) && len(as(obj, slip.List)) > 0 && is(as(obj, slip.List)[0], slip.List) && len(as(as(obj, slip.List)[0], slip.List)) == 2 && is(as(as(obj, slip.List)[0], slip.List)[1], slip.Tail)) ==> is(v, map_string_any)
+//@   ensures list-is-array: old(is(obj, slip.List) && len(as(obj, slip.List)) > 0 && !is(as(obj, slip.List)[0], slip.List)) ==> (is(v, slice_any) && len(as(v, slice_any)) == len(as(obj, slip.List)))
+//@   ensures nil-is-null: obj == nil ==> v == nil
